@@ -7,7 +7,8 @@
    The equivalence of the two PIPELINES for the fix-time spellings (transformer order, label field
    specs) is not modelled here: it is checked on the implementation by the metamorphic oracle of
    harness/c19.go (see design.d/C19.md). *)
-From KV Require Import Edit.Cmd Edit.CmdProofs Edit.LawsProofs Edit.FixProofs.
+From KV Require Import Edit.Cmd Edit.CmdProofs Edit.LawsProofs Edit.FixProofs Edit.FixPipe.
+From KV Require Import Res.Pipeline Res.PipelineProofs.
 Local Open Scope list_scope.
 
 (* load-time spellings: a kustomization and its hand-rewritten form (bases appended to resources,
@@ -76,7 +77,7 @@ Print Assumptions C19_fix_idempotent.
 (* fix touches nothing else *)
 Theorem C19_fix_frame :
   forall readable k k' n,
-    fix_premarshal readable k = Ok k' -> ~ In n fix_addressed -> get n k' = get n k.
+    fix_premarshal readable k = Ok k' -> ~ In n fix_addressed -> Kust.get n k' = Kust.get n k.
 Proof. exact fix_premarshal_frame. Qed.
 Print Assumptions C19_fix_frame.
 
@@ -98,3 +99,38 @@ Theorem C19_fix_failure_writes_nothing :
   forall e U R f, fst (fix_file e U R f) <> COk -> snd (fix_file e U R f) = f.
 Proof. exact fix_file_failure. Qed.
 Print Assumptions C19_fix_failure_writes_nothing.
+
+(* ---- `edit fix` preserves the BUILD (over the integrated pipeline model Res/Pipeline.v) ----
+   Full statement of the property: build (fix T) = build T for every tree whose patches address disjoint
+   fields.  Proved part (hence _partial): the layer being fixed uses only directives the pipeline model
+   has — namespace, namePrefix, nameSuffix, labels (without custom `fields:`), commonLabels,
+   commonAnnotations, literal-only configMap/secret generators (no immutable), generatorOptions; the
+   layers BELOW it are arbitrary trees of the pipeline model.  [to_pdirs k = Some d] is exactly that guard.
+   Not covered (no patch / image transformers in the pipeline model): patchesStrategicMerge,
+   patchesJson6902 -> patches; they stay with the bytewise build oracle of harness/c19.go.
+   fix_premarshal is the Edit/Fix.v function that the `edit fix` correspondence compares with the real
+   command on every run; the load-time spellings (bases, imageTags, env) give the same record before the
+   build starts (C19_load_spellings), i.e. the same tree. vars are not touched by fix without --vars. *)
+Theorem C19_fix_preserves_build_partial :
+  forall nonstr o n ents readable k k' d,
+    to_pdirs k = Some d -> fix_premarshal readable k = Ok k' ->
+    exists d', to_pdirs k' = Some d' /\
+               build nonstr o (PDir n d' ents) = build nonstr o (PDir n d ents).
+Proof. exact fix_preserves_build. Qed.
+Print Assumptions C19_fix_preserves_build_partial.
+
+(* the tie between the two models: on the pipeline's directives FixKustomizationPreMarshalling is the
+   respelling of Res/PipelineProofs.v *)
+Theorem C19_fix_is_respell :
+  forall readable k k' d,
+    to_pdirs k = Some d -> fix_premarshal readable k = Ok k' -> to_pdirs k' = Some (respell d).
+Proof. exact to_pdirs_fix. Qed.
+Print Assumptions C19_fix_is_respell.
+
+(* the hand rewrite of ONE layer (labels ++ [{pairs: commonLabels, includeSelectors: true}]) preserves the
+   build unconditionally — including the case `edit fix` refuses (C19_fix_conflict): the same key in a
+   labels entry and in commonLabels with different values, which the build oracle now generates *)
+Theorem C19_respell_layer_preserves_build :
+  forall nonstr o n d ents, build nonstr o (PDir n (respell d) ents) = build nonstr o (PDir n d ents).
+Proof. exact build_respell_layer. Qed.
+Print Assumptions C19_respell_layer_preserves_build.
